@@ -73,7 +73,21 @@ class s1:
 
 PROJECT_PY = '''import os
 from lemoncheesecake.project import Project
+from lemoncheesecake.reporting.backend import FileReportBackend
 from lemoncheesecake.reporting.reportdir import create_report_dir_with_rotation
+
+
+class NoteBackend(FileReportBackend):
+    # a project-defined file backend: `--reporting console note` leaves report-note.txt and none of the built-in files
+    def get_name(self):
+        return "note"
+
+    def get_report_filename(self):
+        return "report-note.txt"
+
+    def save_report(self, filename, report):
+        with open(filename, "w") as fh:
+            fh.write("tests: %%d\\n" %% len(list(report.all_tests())))
 
 
 class MyProject(Project):
@@ -88,6 +102,7 @@ class MyProject(Project):
 
 
 project = MyProject()
+project.reporting_backends["note"] = NoteBackend()
 project.threaded = %(threaded)s
 '''
 
@@ -122,7 +137,7 @@ def gen_case(rng, i):
                 rep = "json"
             # the reporting backends as an input: any combination, fixed lists and +/^ directives, option and variable
             if rng.random() < 0.4:
-                rep = rng.choice(BACKEND_EXPRS)
+                rep = rng.choice(BACKEND_EXPRS + (CUSTOM_EXPRS * 2 if kind == "file" else []))
                 if rng.random() < 0.3 and not rep.startswith("cli:+") and not rep.startswith("cli:^"):
                     rep = "env:" + rep[4:]
             limit = base_limit if (not override or rng.random() < 0.8) else rng.choice(["default", None, 1, 2, 3])
@@ -160,9 +175,13 @@ def gen_case(rng, i):
 BACKEND_EXPRS = ["cli:console html junit", "cli:html junit", "cli:html", "cli:junit", "cli:xml", "cli:console xml html",
                  "cli:json xml junit html", "cli:console junit", "cli:^json", "cli:+junit", "cli:^json +junit", "cli:^json ^html",
                  "cli:+xml ^json"]
+# with the project-defined backend `note` of PROJECT_PY (projects with a project.py only)
+CUSTOM_EXPRS = ["cli:console note", "cli:html note", "cli:+note", "cli:note"]
 DEFAULT_BACKENDS = ["console", "json", "html"]
-FILE_KINDS = ["json", "xml", "junit", "html"]
-KIND_OF_FILE = {"report.js": "json", "report.xml": "xml", "report-junit.xml": "junit", "report.html": "html", "attachments": "attachments"}
+FILE_KINDS = ["json", "xml", "junit", "html", "custom"]
+BACKEND_OF_KIND = {"custom": "note"}
+KIND_OF_FILE = {"report.js": "json", "report.xml": "xml", "report-junit.xml": "junit", "report.html": "html", "report-note.txt": "custom",
+                "attachments": "attachments"}
 
 
 def backend_names(op):
@@ -189,7 +208,7 @@ def backend_names(op):
 def files_of(op):
     """what a COMPLETED run leaves in its directory, by kind (canonical order)"""
     names = backend_names(op)
-    kinds = [k for k in FILE_KINDS if k in names]
+    kinds = [k for k in FILE_KINDS if BACKEND_OF_KIND.get(k, k) in names]
     if op.get("attach"):
         kinds.append("attachments")
     return kinds
@@ -707,7 +726,8 @@ class Runs(C.Stream):
                 for key, val in (("abort", None), ("env", None), ("cli", None), ("limit", "default"), ("attach", None)):
                     if op.get(key) != val:
                         yield dict(case, ops=ops[:i] + [dict(op, **{key: val})] + ops[i + 1:])
-        if case["project"]["kind"] == "file" and not case["project"]["override"] and case["project"]["threaded"]:
+        uses_note = any("note" in op.get("reporting", "") for op in ops if op["op"] == "run")
+        if case["project"]["kind"] == "file" and not case["project"]["override"] and case["project"]["threaded"] and not uses_note:
             yield dict(case, project={"kind": "dir", "override": False, "threaded": True})
 
 
@@ -740,6 +760,8 @@ Runs.corpus = [
                                {"op": "delcur"}, _run(cli="default"), _run(), _run(cli="", env={"other": 1}), _run(abort="save-report")]},
     # fresh processes
     {"project": _FILE, "ops": [_run("subprocess"), _run("subprocess", reporting="console"), _run("subprocess")]},
+    # a project-defined file backend alone / beside html
+    {"project": _FILE, "ops": [_run(reporting="cli:console note"), _run(reporting="cli:html note"), _run()]},
     # what the PREVIOUS run left: html + junit without report.js / report.xml, html alone, junit alone, only attachments
     {"project": _DIR, "ops": [_run(reporting="cli:console html junit"), _run()]},
     {"project": _DIR, "ops": [_run(reporting="cli:html"), _run(reporting="cli:junit"), _run(reporting="env:html junit"), _run(reporting="cli:^json"),
